@@ -838,7 +838,15 @@ def pair_family():
            'init': ['s', 'al.do', 'top.do'], 'cmds': [(I, ['top'], False)],
            'pairs': [((I, ['top'], False), (I, ['top'], False)), ((I, ['top'], False), (I, ['al'], False))],
            'user': ['s'], 'rm': [], 'doedits': [], 'bounds': (2, 4)}
-    return [complete(dict(p, no_viewer=True)) for p in [chain, stampp, dia, fail, lockfail, alw]]
+    # a query beside a build: it reads one consistent snapshot, lists what that snapshot says, never fails, changes nothing
+    qry = {'name': 'pair_query', 'plain': ['s', 'mid', 'top'],
+           'rules': {'mid.do': [{'mid': [ifchange('s'), out('stdout', 's'), stamp()]}],
+                     'top.do': [{'top': [ifchange('mid'), out('stdout', 'mid')]}]},
+           'init': ['s', 'mid.do', 'top.do'], 'cmds': [(I, ['top'], False)],
+           'pairs': [((I, ['top'], False), ('ood', [], False)), ((I, ['top'], False), ('targets', [], False)),
+                     ((I, ['top'], False), ('sources', [], False))],
+           'user': ['s'], 'rm': [], 'doedits': [], 'bounds': (3, 4), 'repeat': 2}
+    return [complete(dict(p, no_viewer=True)) for p in [chain, stampp, dia, fail, lockfail, alw, qry]]
 
 
 # dependency cycles ---------------------------------------------------------------------------
